@@ -1,7 +1,7 @@
 """C11 - new -json: key set, key names and Marshal/Unmarshal round trip."""
 import json
 
-from vlib import core, newgen, pkgrun
+from vlib import core, newgen, pkgrun, xferleg
 from vlib.sexp import Q, dump
 from props.c13 import leaf_types
 from props.c03 import typedoc_sexp, TYPEDOCS, gs_sexp
@@ -205,6 +205,7 @@ def run(ctx, obl):
                 "names in lower/camel/snake/acronym/ALLCAPS forms, with and without -getset; observed: key set and per-key provenance of json.Marshal on a "
                 "value whose i-th leaf holds sentinel i; every leaf after json.Unmarshal of a document with a typed sentinel per key (allocated and fresh receiver). "
                 "non-trivial = >= 2 keys and an embed, tag or get-less field")
+    xferleg.run(ctx, res, ctx.n(20000, 200000))
     res.assumptions = ["encoding/json maps shadow-struct fields to their tags and back", "bool leaves: only true/false is observable"]
     return res
 
